@@ -241,9 +241,15 @@ func (g *gen) probes(t *progen.Type, n int) string {
 	w("\tc, _ := j.(%s)", T)
 	w("\t%s(&c, 4)", MUT)
 	w("\temit(\"box-copy\", %s+\"|\"+%s)", S("i.("+T+")"), S("j.("+T+")"))
+	w("\tvar k interface{} = %s(a)", func() string {
+		if strings.HasPrefix(T, "*") || strings.HasPrefix(T, "[") || strings.HasPrefix(T, "map[") {
+			return "(" + T + ")"
+		}
+		return T
+	}())
 	w("\tis := []interface{}{a, a}")
 	w("\t%s(&a, 5)", MUT)
-	w("\temit(\"box-slice\", %s)", S("is[1].("+T+")"))
+	w("\temit(\"box-slice\", %s+\"|\"+%s)", S("is[1].("+T+")"), S("k.("+T+")"))
 	w("}")
 	w("{ // conversion between identical-layout named types")
 	w("\ta := %s(1)", MK)
